@@ -30,6 +30,14 @@
 (*                  (in particular 1 - 1/TQ, "just below one") plus the    *)
 (*                  coarse midpoints.  The harness maps the fine unit 1/TQ *)
 (*                  to 2^-30 (order preserving, see checks/c06.py);        *)
+(*   fam = "degen"  nearly degenerate but legal weights on a huge dyadic    *)
+(*                  denominator D = 2^17..2^24: (D-1,1)/D, (1,D-1)/D,      *)
+(*                  (1,D-2,1)/D, (D-3,1,1,1)/D, (D-1,0,1)/D.  The 2D        *)
+(*                  offsets cannot be enumerated; the specification        *)
+(*                  computes the finite partition instead                  *)
+(*                  (ResampleOps!PartitionOffsets: 0, every breakpoint,    *)
+(*                  its neighbours one unit away, every cell midpoint) and *)
+(*                  CoverageComplete / Unbiased are checked on it exactly; *)
 (*   fam = "mult"   multinomial resampling as inverse-CDF lookup           *)
 (*                  idx_i = min{j : r_i < cdf_j}, one action per draw.     *)
 (***************************************************************************)
@@ -39,7 +47,9 @@ CONSTANTS Variant,     \* "intended" | "impl"
           Ns, Ds, MaxLen,          \* exact family: n, denominators, max length of the weight vector
           TolNs, TolDs, TolMaxLen, \* tolerance family ({} for TolDs disables it)
           TQ, TE,                  \* fine denominator (2^11) and size of the perturbation (8 units)
-          MultNs, MultDs, MultMaxLen
+          MultNs, MultDs, MultMaxLen,
+          DegDs, DegNs,            \* degenerate family: huge denominators, all n in DegNs
+          DegBigDs, DegBigNs       \* ... and a few larger n on a subset of the vectors
 
 VARIABLES fam, dc, n, a, Q, k, r, pc, i, j, csum, idx, err, alt
 
@@ -57,7 +67,12 @@ TolOffsets(nn, D) ==
         F  == {0, 2, -2, E2, -E2, E2 + 2, E2 - 2, 2 - E2, -E2 - 2}
     IN  ({m * G + f : m \in 0..D, f \in F} \cup {m * G + G \div 2 : m \in 0..(D - 1)}) \cap (0..(2 * TQ - 1))
 
-OffsetSet == IF fam = "tol" THEN TolOffsets(n, dc) ELSE 0..(2 * Q - 1)
+DegVecs(D)    == {<<D - 1, 1>>, <<1, D - 1>>, <<1, D - 2, 1>>, <<D - 3, 1, 1, 1>>, <<D - 1, 0, 1>>}
+DegBigVecs(D) == {<<D - 1, 1>>, <<1, D - 2, 1>>}
+
+OffsetSet == IF fam = "tol" THEN TolOffsets(n, dc)
+             ELSE IF fam = "degen" THEN PartitionOffsets(n, a, Q)
+             ELSE 0..(2 * Q - 1)
 
 -----------------------------------------------------------------------------
 InitExact ==
@@ -81,6 +96,13 @@ InitTol ==
     /\ k \in TolOffsets(n, dc)
     /\ r = <<>>
 
+InitDegen ==
+    /\ fam = "degen"
+    /\ \/ \E D \in DegDs    : Q = D /\ dc = D /\ a \in DegVecs(D)    /\ n \in DegNs
+       \/ \E D \in DegBigDs : Q = D /\ dc = D /\ a \in DegBigVecs(D) /\ n \in DegBigNs
+    /\ k \in PartitionOffsets(n, a, Q)
+    /\ r = <<>>
+
 InitMult ==
     /\ fam = "mult"
     /\ \E D \in MultDs, len \in 1..MultMaxLen :
@@ -91,7 +113,7 @@ InitMult ==
     /\ r \in [1..n -> 0..(2 * Q - 1)]          \* uniforms r_i/(2Q): lattice points and cell midpoints
 
 Init ==
-    /\ (InitExact \/ InitTol \/ InitMult)
+    /\ (InitExact \/ InitTol \/ InitDegen \/ InitMult)
     /\ pc = "start" /\ i = 0 /\ j = 0 /\ csum = 0 /\ idx = <<>> /\ err = FALSE
     /\ alt = IF fam = "mult" THEN [out |-> <<>>, err |-> FALSE] ELSE Other(n, a, Q, k)
 
@@ -148,7 +170,7 @@ Spec == Init /\ [][Next]_vars
 Done == pc = "done"
 
 TypeOK ==
-    /\ fam \in {"exact", "tol", "mult"} /\ pc \in {"start", "loop", "done"}
+    /\ fam \in {"exact", "tol", "degen", "mult"} /\ pc \in {"start", "loop", "done"}
     /\ n \in Nat \ {0} /\ i \in 0..n /\ Len(idx) = i /\ err \in BOOLEAN
     /\ Total(a) > 0
 
@@ -172,36 +194,18 @@ LoopMatchesDefinition ==
 \* inside a cell of the offset partition the two closure conventions cannot differ
 \* (this is what makes the exact comparison with the implementation at cell midpoints legitimate)
 InteriorConventionFree ==
-    (pc = "start" /\ fam = "exact" /\ ~IsBreak(n, a, Q, k)) => alt = Comb(n, a, Q, k)
+    (pc = "start" /\ fam \in {"exact", "degen"} /\ ~IsBreak(n, a, Q, k)) => alt = Comb(n, a, Q, k)
 
 \* the enumerated offsets contain every breakpoint and an interior point of every cell:
 \* "every u0 in [0,1)" is covered
 CoverageComplete ==
-    (pc = "start" /\ fam # "mult" /\ k = 0) =>
-        LET K == OffsetSet
-            B == Breakpoints(n, a, Q)
-        IN  /\ 0 \in K /\ B \subseteq K
-            /\ \A k1 \in K :
-                 LET up == {x \in K : x > k1} IN
-                 IF up = {} THEN k1 \notin B ELSE ~(k1 \in B /\ MinOf(up) \in B)
+    (pc = "start" /\ fam # "mult" /\ k = 0) => CoverageOK(n, a, Q, OffsetSet)
 
-\* exact unbiasedness as a counting identity over the cells:
-\*     sum over cells  |cell| * copies_j(cell)  =  n * w_j          (units: 1/(2Q))
-\* (up to n*|1 - sum w| when the weights do not sum to exactly one)
-RECURSIVE SetSum(_, _)
-SetSum(S, f) == IF S = {} THEN 0 ELSE LET x == CHOOSE y \in S : TRUE IN f[x] + SetSum(S \ {x}, f)
-Abs(x) == IF x < 0 THEN -x ELSE x
-
+\* exact unbiasedness as a counting identity over the cells (ResampleOps!UnbiasedOn):
+\*     sum over cells  |cell| * copies_j(cell)  =  n * w_j
 Unbiased ==
     (pc = "start" /\ fam # "mult" /\ k = 0) =>
-        LET K    == OffsetSet
-            B    == Breakpoints(n, a, Q)
-            outs == [kk \in K |-> Comb(n, a, Q, kk).out]
-            nxt(k1) == LET up == {x \in K : x > k1} IN IF up = {} THEN 2 * Q ELSE MinOf(up)
-            rep(k1) == IF k1 \in B /\ nxt(k1) \in K THEN nxt(k1) ELSE k1
-        IN  \A jj \in DOMAIN a :
-              LET s == SetSum(K, [k1 \in K |-> (nxt(k1) - k1) * Copies(outs[rep(k1)], jj)])
-              IN  Abs(s - 2 * n * a[jj]) <= 2 * n * Abs(Q - Total(a))
+        LET K == OffsetSet IN UnbiasedOn(n, a, Q, K, [kk \in K |-> Comb(n, a, Q, kk).out])
 
 \* multinomial: the lookup never leaves the range, never returns a zero-weight index, and the
 \* measure of {r : Lookup(r) = j} is exactly w_j (counted on the lattice of cell midpoints)
